@@ -11,12 +11,13 @@ RULE = ("dsim scenarios (real code, public async API, recording listeners) from 
         "later by set_listener, or nil listener with a mask; one or two participants; optional second writer); a case is "
         "non-trivial when at least one `log` answer records a callback; distinct by op lines")
 ASSUMPTIONS = ["single-threaded deterministic simulator: the order of callbacks of different listener tasks is a scheduling artefact, "
-               "so `log` answers are compared as multisets",
-               "deadline / incompatible-QoS / inconsistent-topic callbacks are compared as 'at least one' per receiver and log window: "
-               "their multiplicity depends on the number of worker wake-ups (findings D35, D-listen-1, D-listen-2); the oracle checks it",
-               "SampleLost, LivelinessLost and LivelinessChanged are never raised by the pinned code (no ListenerMail variant) and "
+               "so `log` answers are compared as multisets (with exact multiplicities)",
+               "deadline callbacks are compared as 'at least one' per receiver and log window (how many periods fall into a window is C30's "
+               "subject); every other callback, incl. incompatible-QoS and inconsistent-topic, is compared with its exact count",
+               "SampleLost, LivelinessLost and LivelinessChanged are never raised by the code (no ListenerMail variant) and "
                "are therefore not exercised; status fields of the callbacks (counts) belong to C16 / C19 / C30",
-               "the listener configuration is not changed between a status change and the `log` that records it"]
+               "the listener configuration is not changed between a status change and the `log` that records it",
+               "the model is main + fixes/D38.patch, D-listen-1.patch, D-listen-2.patch, D-listen-3.patch"]
 
 
 def run(ctx):
@@ -28,19 +29,22 @@ def run(ctx):
     run_differential(ctx, cases)
 
 
-LEVEL_TEXT = ("Kernel-checked Lean theorems over ALL listener configurations (arbitrary masks and installed-or-nil listeners at the three "
-              "levels) and all nine status-raising events of the code: the mail of every chained status goes to the first level whose mask "
-              "enables it, to nobody otherwise (C33_dispatch_decision); at most one callback per status change (C33_at_most_one) and never "
-              "a wrong receiver or callback (C33_never_wrong_listener) hold without exception; the exact receiver is proved for every "
-              "configuration except two open findings (C33_dispatch_partial): DATA_AVAILABLE enabled only on the subscriber or participant "
-              "is never delivered (D38) and a topic's own listener is never called (D-listen-3), each with a Lean counter-example replayed on "
-              "the real code; C33_data_dispatch_repaired shows the two missing branches would close D38. The model is tied to the code by "
-              "a differential run of dsim scenarios (all 2^3 placements x every event family, plus random masks), and an independent Python "
-              "statement of the DDS rule checks every recorded callback. Two further findings are about repetition in time: incompatible-QoS "
-              "and inconsistent-topic notifications are repeated on every worker iteration (D-listen-1, D-listen-2).")
+LEVEL_TEXT = ("Kernel-checked Lean theorem over ALL listener configurations (arbitrary masks and installed-or-nil listeners at the three "
+              "levels) and all nine status-raising events of the code: the callbacks made for one status change are exactly those the DDS "
+              "rule names — the first level whose mask enables the status, nobody otherwise, DATA_ON_READERS on the subscriber before the "
+              "DATA_AVAILABLE chain (C33_dispatch, full), hence at most one callback per change (C33_at_most_one) and never a wrong receiver "
+              "(C33_never_wrong_listener); a worker iteration without a new status change is silent and an endpoint already known as "
+              "incompatible / inconsistent is not notified again (C33_iteration_without_change_is_silent, C33_known_endpoint_not_renotified). "
+              "Four defects found by this check were repaired (D38 DATA_AVAILABLE never reached subscriber / participant listeners; "
+              "D-listen-1 incompatible-QoS callbacks repeated on every worker iteration; D-listen-2 inconsistent-topic count growing on every "
+              "iteration and counted twice through the type-lookup path; D-listen-3 the topic listener never called); their old behaviour is kept "
+              "as Lean regression witnesses on the `…Old` model functions and as corpus scenarios. The model is tied to the code by a differential "
+              "run of dsim scenarios (all 2^3 placements x every event family, plus random masks), and an independent Python statement of "
+              "the DDS rule checks every recorded callback, its multiplicity, and that observable changes did produce their callback.")
 LEVEL_NOTE = ("Trusted: Lean kernel; Model/Listener.lean (transcription of the if/else-if chains and of the listener tasks, plus a small world "
               "that predicts which status changes the scenario family raises); the dsim simulator and its recording listeners; Python "
-              "canonicaliser (handles -> names, log as multiset) and oracle. Not covered: SampleLost / Liveliness* (never raised), the "
-              "status-condition side of the same changes (C32), counts inside the status structures.")
+              "canonicaliser (handles -> names, log as multiset) and oracle. Assumes the four patches named above. Not covered: SampleLost / "
+              "Liveliness* (never raised), the status-condition side of the same changes (C32), counts inside the status structures, "
+              "re-notification when an already incompatible endpoint changes its QoS to another incompatible one.")
 TECHNIQUE = "Lean 4 theorems over all mask placements (dispatch = first enabled level) + differential correspondence through the deterministic simulator"
 DESIGN_REF = "DESIGN.md section 5 C33"
